@@ -38,8 +38,16 @@ type trace struct {
 
 func newTrace() *trace { return &trace{written: map[string][]any{}, read: map[string][]any{}} }
 
-func (t *trace) w(key string, o any) { t.mu.Lock(); t.written[key] = append(t.written[key], o); t.mu.Unlock() }
-func (t *trace) r(key string, o any) { t.mu.Lock(); t.read[key] = append(t.read[key], o); t.mu.Unlock() }
+func (t *trace) w(key string, o any) {
+	t.mu.Lock()
+	t.written[key] = append(t.written[key], o)
+	t.mu.Unlock()
+}
+func (t *trace) r(key string, o any) {
+	t.mu.Lock()
+	t.read[key] = append(t.read[key], o)
+	t.mu.Unlock()
+}
 func (t *trace) fail(format string, a ...any) {
 	t.mu.Lock()
 	t.fails = append(t.fails, fmt.Sprintf(format, a...))
@@ -1020,9 +1028,8 @@ func runRHP2Session(b *harness.B, g G, tcp bool, fc fragClass, nRounds, maxPaylo
 						key += "/ciphertext-len-multiple-of-16"
 					}
 					rawViol = append(rawViol, key, fmt.Sprintf("untampered response with %d data bytes (ciphertext %d bytes) failed on the RawResponse/VerifyTag path: %v", rd.raw, 89+rd.raw, err))
-					rawWit = (
-						map[string]any{"data_len": rd.raw, "ciphertext_len": 89 + rd.raw, "link": link, "fragmentation": fc.name, "ciphertext_len_mod_16": (89 + rd.raw) % 16,
-							"repro": "host: WriteResponse(&rhp2.RPCReadResponse{Data: make([]byte, data_len)}); renter: RawResponse(max) -> read to EOF -> VerifyTag()"})
+					rawWit = (map[string]any{"data_len": rd.raw, "ciphertext_len": 89 + rd.raw, "link": link, "fragmentation": fc.name, "ciphertext_len_mod_16": (89 + rd.raw) % 16,
+						"repro": "host: WriteResponse(&rhp2.RPCReadResponse{Data: make([]byte, data_len)}); renter: RawResponse(max) -> read to EOF -> VerifyTag()"})
 					rawFailed.Store(true)
 					return
 				}
